@@ -978,7 +978,36 @@ impl Hist {
                 };
                 format!("H dec {} {} {}", id, l, if r.chance(1, 2) { "a" } else { "p" })
             }
-            42..=49 => format!("H upd {}", id),
+            42..=44 => {
+                // C12 / C13 / C16 / C04: the liquidity INSTRUCTION (Pinocchio-routed) through the entrypoint
+                let p = w.pos(id).unwrap();
+                let inc = p.liquidity == 0 || r.chance(1, 2);
+                let liq = if inc {
+                    match r.below(4) {
+                        0 => r.liquidity(),
+                        _ => r.log_u128(50).max(1),
+                    }
+                } else {
+                    match r.below(4) {
+                        0 => p.liquidity,
+                        1 => (p.liquidity / 2).max(1),
+                        2 => p.liquidity.saturating_add(1),
+                        _ => r.log_u128(64).min(p.liquidity.max(1)).max(1),
+                    }
+                };
+                let ver = if r.chance(1, 3) { 1 } else { 2 };
+                let fee = |r: &mut Rng| -> String {
+                    if r.chance(1, 2) {
+                        return "65535 0 0".to_string();
+                    }
+                    format!("{} {} {}", r.pick(&[0u64, 1, 100, 300, 5000, 9999, 10000]), r.pick(&[0u64, 1, 5000, 1_000_000, u64::MAX]), b(r.chance(1, 2)))
+                };
+                let (fa, fb) = (fee(r), fee(r));
+                let auth = r.pick(&[0u8, 0, 0, 0, 0, 0, 1, 2]);
+                format!("H xliq {} {} {} {} {} {} {} {}", ver, id, b(inc), liq, r.pick(&[0u8, 0, 1, 2]), fa, fb, auth)
+            }
+            45 => format!("H xsub {} {} {}", if r.chance(1, 2) { "swap" } else { "liq" }, r.below(15), id),
+            46..=49 => format!("H upd {}", id),
             50..=54 => format!("H cfees {}", id),
             55..=57 => "H cproto".to_string(),
             58..=59 if wp.liquidity > 0 && (w.snap.is_none() || r.chance(1, 4)) => "H snap".to_string(),
@@ -1201,6 +1230,39 @@ impl Family for Hist {
             w.snap = Some(Box::new(c));
             ctx.tag("snap");
             return "ok | ".to_string() + &w.digest();
+        }
+        if t[1] == "xsub" {
+            let o = std::panic::catch_unwind(std::panic::AssertUnwindSafe(|| w.x_sub(&t)));
+            return match o {
+                Ok(o) => {
+                    for v in o.viols {
+                        ctx.viol(v);
+                    }
+                    for tg in o.tags {
+                        ctx.tag(tg);
+                    }
+                    ctx.tag("xsub");
+                    // skipped experiments (control fails / no look-alike exists) are counted in the tags
+                    (if o.line == "ACCEPTED" { "ACCEPTED" } else { "rejected" }).to_string() + " | " + &w.digest()
+                }
+                Err(_) => "err HarnessPanic | ".to_string() + &w.digest(),
+            };
+        }
+        if t[1] == "xliq" {
+            let o = std::panic::catch_unwind(std::panic::AssertUnwindSafe(|| w.x_liq(&t)));
+            return match o {
+                Ok(o) => {
+                    for v in o.viols {
+                        ctx.viol(v);
+                    }
+                    for tg in o.tags {
+                        ctx.tag(tg);
+                    }
+                    ctx.tag("xliq");
+                    o.line + " | " + &w.digest()
+                }
+                Err(_) => "err HarnessPanic | ".to_string() + &w.digest(),
+            };
         }
         if t[1] == "xhop" {
             let o = std::panic::catch_unwind(std::panic::AssertUnwindSafe(|| w.x_hop(&t)));
